@@ -346,6 +346,8 @@ func c03ParseValue(s string) (interface{}, string) {
 			i++
 		}
 		return unhx(s[1:i]), s[i:]
+	case strings.HasPrefix(s, "E()"):
+		return []interface{}{}, s[3:] // empty but NOT nil (a list handed in by the host)
 	case strings.HasPrefix(s, "L("):
 		rest := s[2:]
 		var l []interface{} // an empty list is a nil slice, as the value of the literal [] is
@@ -1118,6 +1120,21 @@ func c03Gen(g *Gen) {
 	emitM("multi-corpus", `"banana" like p`, []string{"p=" + S("^a"), "p=" + S("^b"), "p=" + S("an"), "p=n"})
 	emitM("multi-corpus", "not ( s like p ) or s like q", []string{"s=" + S("a") + ";p=" + S("a") + ";q=" + S("b"),
 		"s=" + S("b") + ";p=" + S("a") + ";q=" + S("b"), "s=" + S("c") + ";p=" + S("c") + ";q=" + S("c")})
+	// lists as Go sees them: identical backing arrays are equal whatever they hold (NaN), a nil and an
+	// empty non-nil slice are not equal
+	listVals := []string{"L(Nnan)", "E()", "L()", "L(N3ff0000000000000,Nnan)", "L(L(Nnan))", "L(E())", "L(L())", "L(N3ff0000000000000)", "L(N8000000000000000)", "L(N0000000000000000)"}
+	for _, src := range []string{"v == v", "v != v", "v == w", "v in [ v ]", "v in [ w ]", "v notin [ w , v ]", "[ v ] == [ v ]", "[ v ] == [ w ]",
+		"v == [ ]", "[ ] == v", "v == [ [ ] ]", "v in v", "[ v , v ] == [ v , w ]", "v == [ 0 / 0 ]", "v >= w", "v hasprefix w", "v == [ 0 ]"} {
+		for i := 0; i < len(listVals); i++ {
+			var envs []string
+			for k := 0; k < 3; k++ {
+				a := listVals[(i+k)%len(listVals)]
+				b := listVals[(i+2*k)%len(listVals)]
+				envs = append(envs, "v="+a+";w="+b)
+			}
+			emitM("multi-list-identity", src, envs)
+		}
+	}
 	mvals := [5][]string{
 		{"N0000000000000000", "N3ff0000000000000", "N4000000000000000", "Nc004000000000000", "N3fe0000000000000", "N4024000000000000",
 			"N4059000000000000", "N7fe1ccf385ebc8a0", "Nbff0000000000000", "N401c000000000000", "N4008000000000000",
@@ -1127,7 +1144,8 @@ func c03Gen(g *Gen) {
 		{"t", "f"},
 		{"n"},
 		{"L()", "L(N3ff0000000000000," + S("x") + ")", "L(L(N3ff0000000000000))", "L(N3ff0000000000000,N4000000000000000,N4008000000000000)",
-			"L(n)", "L(" + S("10") + ",N4024000000000000)", "L(t,f)", "L(" + S("banana") + "," + S("a") + ")"},
+			"L(n)", "L(" + S("10") + ",N4024000000000000)", "L(t,f)", "L(" + S("banana") + "," + S("a") + ")",
+			"E()", "L(Nnan)", "L(N3ff0000000000000,Nnan)", "L(L(Nnan))", "L(E())", "L(L())", "L(N8000000000000000)"},
 	}
 	anyVal := func() string { k := r.Intn(5); return mvals[k][r.Intn(len(mvals[k]))] }
 	// every operator on two variables, environments over the whole universe
